@@ -132,7 +132,8 @@ pub struct Case {
     #[serde(default)]
     pub sweep: Option<crate::sweep::SweepCase>,
     /// (with `without_grantor_allowance`, not expired) the grantor approved and then revoked by approving 0:
-    /// 1 with expiration 0, 2 with an expiration just passed, 3 with a future expiration; some ledgers passed before
+    /// 1 with expiration 0, 2 with an expiration just passed, 3 with a future expiration; some ledgers passed before.
+    /// 4: instead, the rightful spender spent the whole allowance on the very ledger it expires at; 5, 6: some ledgers earlier
     #[serde(default)]
     pub grantor_allowance_revoked: u8,
 }
@@ -188,16 +189,28 @@ fn build<'a>(case: &Case, named_is_probe: bool) -> W<'a> {
         let soon = env.ledger().sequence() + 5;
         s.token.approve(&counterparty, &named, &500, &soon);
         advance_ledgers(&env, 6);
-    } else if case.grantor_allowance_revoked % 4 != 0 {
-        s.token.approve(&counterparty, &named, &500, &exp);
-        advance_ledgers(&env, 10);
-        let now = env.ledger().sequence();
-        let e = match case.grantor_allowance_revoked % 4 {
-            1 => 0,
-            2 => now - 1,
-            _ => now + 100,
-        };
-        s.token.approve(&counterparty, &named, &0, &e);
+    } else if case.grantor_allowance_revoked != 0 {
+        match case.grantor_allowance_revoked % 6 {
+            k @ 1..=3 => {
+                s.token.approve(&counterparty, &named, &500, &exp);
+                advance_ledgers(&env, 10);
+                let now = env.ledger().sequence();
+                let e = match k {
+                    1 => 0,
+                    2 => now - 1,
+                    _ => now + 100,
+                };
+                s.token.approve(&counterparty, &named, &0, &e);
+            }
+            k => {
+                // exhausted: the whole allowance was spent by its rightful spender - on the very ledger it expires at
+                // (4), or well before (5, 0)
+                let e = env.ledger().sequence() + 20;
+                s.token.approve(&counterparty, &named, &500, &e);
+                advance_ledgers(&env, if k == 4 { 20 } else { 7 });
+                s.token.transfer_from(&named, &counterparty, &named, &500);
+            }
+        }
     }
     if case.with_allowance_for_counterparty {
         // and the other way round: the counterparty holds an allowance from `named`
@@ -400,7 +413,7 @@ impl Property for C07 {
                 windows_open: amount % 5 == 0,
                 negative_amount: amount % 7 == 0,
                 sweep: None,
-                grantor_allowance_revoked: if without_grantor_allowance && amount % 2 == 1 { amount / 2 % 4 } else { 0 },
+                grantor_allowance_revoked: if without_grantor_allowance && amount % 2 == 1 { 1 + amount / 2 % 6 } else { 0 },
             })
             .boxed();
         match crate::sweep::strategy(crate::sweep::Rule::Spend) {
@@ -432,7 +445,7 @@ impl Property for C07 {
                             for amount in [3u8, 250] {
                                 v.push(Case { ep, principal: p, with_allowance_for_counterparty: false, amount, without_grantor_allowance: true, named_is_token_owner: owner, grantor_allowance_expired: expired , windows_open: false, negative_amount: false, sweep: None, grantor_allowance_revoked: 0 });
                                 if !expired {
-                                    for r in 1..4u8 {
+                                    for r in 1..7u8 {
                                         v.push(Case { ep, principal: p, with_allowance_for_counterparty: false, amount, without_grantor_allowance: true, named_is_token_owner: owner, grantor_allowance_expired: false, windows_open: false, negative_amount: false, sweep: None, grantor_allowance_revoked: r });
                                     }
                                 }
@@ -496,8 +509,8 @@ impl Property for C07 {
                 if case.without_grantor_allowance && matches!(ep, Ep::TokTransferFrom | Ep::TokBurnFrom) {
                     cx.count("must_fail");
                     cx.label("delegated_without_allowance");
-                if case.grantor_allowance_revoked % 4 != 0 && !case.grantor_allowance_expired {
-                    cx.label("allowance_revoked_by_approving_zero");
+                if case.grantor_allowance_revoked != 0 && !case.grantor_allowance_expired {
+                    cx.label(if case.grantor_allowance_revoked % 6 >= 1 && case.grantor_allowance_revoked % 6 <= 3 { "allowance_revoked_by_approving_zero" } else { "allowance_exhausted_by_its_spender" });
                 }
                     let snap0 = snapshot(env);
                     ensure_p!(!call_via_probe(&w, &inv), "{:?}: a delegated spend by a contract succeeded although the holder has no usable allowance (never granted, expired, or revoked)", ep);
@@ -537,8 +550,8 @@ impl Property for C07 {
                 // The grantor never approved the spender: the holder's consent is missing, so the
                 // delegated spend must fail whoever signs (the call cannot be recorded: it fails).
                 cx.label("delegated_without_allowance");
-                if case.grantor_allowance_revoked % 4 != 0 && !case.grantor_allowance_expired {
-                    cx.label("allowance_revoked_by_approving_zero");
+                if case.grantor_allowance_revoked != 0 && !case.grantor_allowance_expired {
+                    cx.label(if case.grantor_allowance_revoked % 6 >= 1 && case.grantor_allowance_revoked % 6 <= 3 { "allowance_revoked_by_approving_zero" } else { "allowance_exhausted_by_its_spender" });
                 }
                 let w = build(case, false);
                 let env = &w.s.env;
